@@ -1,6 +1,7 @@
 SPECIFICATION Spec
 CONSTANTS
-  Sizes = {1, 600, 40000}
+  Sizes = {1, 40000}
+  Single = {63, 64, 600, 16383, 16384, 16385}
   MaxChunks = 2
   Deltas = {0, 1, 2}
   Nets = {"perfect", "mix"}
